@@ -8,6 +8,7 @@
 // Oracle-only op (the Lean driver answers SKIP; the objects are built through the public API along two
 // different construction paths, from the recipe (kind, seed)):
 //   opair <kind> <seed>
+//   ouniv <seed> <n> <mode>   all pairs of a universe of n API-built expressions (modes as in harness/c02.cpp)
 // Oracle (every op that has two operands): eq(a,b) => a->hash() == b->hash(), and eq is symmetric.
 #include "c01_gen.h"
 #include <symengine/visitor.h>
@@ -311,6 +312,33 @@ std::string hx_run(const std::string &line, std::string &oracle)
         stat(std::string("opair_") + kind_name(std::stoi(w[0])) + (e ? "_eq" : "_ne"));
         return std::string("eq=") + (e ? "1" : "0") + " samehash=" + (p.first->hash() == p.second->hash() ? "1" : "0");
     }
+    if (op == "ouniv") {
+        // all pairs of a universe built through the API: eq => equal hash
+        auto w = split(rest, ' ');
+        if (w.size() != 3)
+            return "bad-op";
+        std::vector<B> u = xg::make_universe(strtoull(w[0].c_str(), nullptr, 10), (unsigned)std::stoul(w[1]), std::stoi(w[2]));
+        unsigned long eqs = 0;
+        std::string plain = "ok", known = "ok";
+        for (size_t i = 0; i < u.size(); i++)
+            for (size_t j = i + 1; j < u.size(); j++) {
+                std::string o = "ok";
+                check_pair(*u[i], *u[j], o);
+                if (eq(*u[i], *u[j]))
+                    eqs++;
+                if (o != "ok") {
+                    // a failure that is not one of the known defects is reported first
+                    if (o.compare(0, 10, "FAIL:hash:") == 0 || o.compare(0, 12, "FAIL:eq-asym") == 0) {
+                        if (plain == "ok")
+                            plain = o;
+                    } else if (known == "ok")
+                        known = o;
+                }
+            }
+        if (oracle == "ok")
+            oracle = plain != "ok" ? plain : known;
+        return "n=" + std::to_string(u.size()) + " eqpairs=" + std::to_string(eqs);
+    }
     std::vector<B> v = operands(rest);
     if (op == "hash") {
         if (v.size() != 1)
@@ -406,6 +434,12 @@ void hx_gen(Rng &r0, const std::string &tier)
             }
         } catch (const std::exception &) {
         }
+    }
+    for (int i = 0; i < (th ? 10 : 5); i++) {
+        static const char *mn[] = {"clean", "nan", "signed-zero", "matexpr", "mpoly"};
+        emit("ouniv " + std::to_string(r.next() % 1000000007ULL) + " " + std::to_string(th ? 1200 : 300) + " "
+                 + std::to_string(i % 5),
+             std::string("ouniv-") + mn[i % 5]);
     }
     // single hashes over every class, and eq over a small universe
     xg::Gen g(r, false, 30);
